@@ -316,13 +316,20 @@ def _probe_flow(protocol, t):
     import sys
     L = bytes([108]) + bytes(15)            # a 16-byte message when 'l' is the little marker
     r = {}
-    # the binary branch iterates: more coalesced messages than the interpreter allows nested calls
+    # the binary branch iterates: more coalesced messages than the interpreter allows nested calls.
+    # The probe runs under its own, small recursion limit (the tree under test may have raised the
+    # interpreter's) and with a fixed number of messages.
     p = _mk(protocol, True)
+    old_limit = sys.getrecursionlimit()
+    depth = len(inspect.stack(0)) + 400
     try:
-        p.dataReceived(L * (sys.getrecursionlimit() + 200))
-        r['binaryBranchIterates'] = len(p.got) == sys.getrecursionlimit() + 200
+        sys.setrecursionlimit(depth)
+        p.dataReceived(L * (depth + 300))
+        r['binaryBranchIterates'] = len(p.got) == depth + 300
     except RecursionError:
         r['binaryBranchIterates'] = False
+    finally:
+        sys.setrecursionlimit(old_limit)
     d = bytes(t['authDelimiter'])
     # the hand-off re-joins exactly what follows the final line (lines[lineno + 1:] + [buffer])
     p = _mk(protocol, False, 'cs')
